@@ -794,7 +794,10 @@ def is_complex_name(name):
 QUICK_PART_FAMILIES = ['gen', 'symind', 'spd', 'cgen', 'hpd', 'hind', 'csym', 'lower', 'upper', 'bcdec', 'bcrow',
                        'bccol', 'gperm', 'symzd']
 QUICK_N5_FAMILIES = ['gen', 'spd', 'cgen', 'bcrow']
-SOE_AXES_QUICK = {'given': SOE_GIVEN, 'order': ORDERS, 'shape': ['vec', 'blk'], 'kw': ['auto']}
+SOE_AXES_QUICK = {'given': SOE_GIVEN, 'order': ['asc'], 'shape': ['vec', 'blk'], 'kw': ['auto']}
+SOE_AXES_QUICK_DESC = {'given': ['both'], 'order': ['desc'], 'shape': ['vec'], 'kw': ['auto']}
+LS_AXES_FULL = {'shape': lm.RHS_SHAPES, 'lda': [True, False], 'flags': ['none', 'given']}
+LS_AXES_QUICK_PATTERNS = {'shape': lm.RHS_SHAPES, 'lda': [True], 'flags': ['none', 'given']}
 SOE_AXES_QUICK_KW = {'given': ['free'], 'order': ['asc'], 'shape': ['col'], 'kw': ['splu', 'flags']}
 SOE_AXES_FULL = {'given': SOE_GIVEN, 'order': ORDERS, 'shape': lm.RHS_SHAPES, 'kw': SOE_KW}
 SOE_AXES_PATTERNS = {'given': SOE_GIVEN, 'order': ORDERS, 'shape': ['vec', 'blk'], 'kw': ['auto', 'flags']}
@@ -806,19 +809,26 @@ def plan(tier):
     if tier == 'quick':
         return {
             'inverse_sizes': SIZES_LS,
-            'linsolve_family_storage': STORAGES,
+            'linsolve_family_storage': {'1': ['dense', 'csc'], '2': ['dense', 'csc'], '3': STORAGES,
+                                        '5': ['dense', 'csc']},
+            'linsolve_family_axes': LS_AXES_FULL,
             'linsolve_pattern_storage': ['dense', 'csc'], 'linsolve_pattern_rhs_dtype': 'dtype of the matrix',
-            'soe': [{'n': 3, 'families': 'all', 'storage': ['csc'], 'axes': [SOE_AXES_QUICK, SOE_AXES_QUICK_KW]},
-                    {'n': 4, 'families': QUICK_PART_FAMILIES, 'storage': ['csc'], 'axes': [SOE_AXES_QUICK]},
-                    {'n': 5, 'families': QUICK_N5_FAMILIES, 'storage': ['csr'], 'axes': [SOE_AXES_QUICK]}],
+            'linsolve_pattern_axes': LS_AXES_QUICK_PATTERNS,
+            'soe': [{'n': 3, 'families': 'all', 'storage': ['csc'],
+                     'axes': [SOE_AXES_QUICK, SOE_AXES_QUICK_DESC, SOE_AXES_QUICK_KW]},
+                    {'n': 4, 'families': QUICK_PART_FAMILIES, 'storage': ['csc'],
+                     'axes': [SOE_AXES_QUICK, SOE_AXES_QUICK_DESC]},
+                    {'n': 5, 'families': QUICK_N5_FAMILIES, 'storage': ['csr'],
+                     'axes': [SOE_AXES_QUICK, SOE_AXES_QUICK_DESC]}],
             'sc': [{'n': 3, 'families': 'all', 'storage': ['csc', 'csr'], 'axes': [SC_AXES_FULL]},
                    {'n': 4, 'families': QUICK_PART_FAMILIES, 'storage': ['csc'], 'axes': [SC_AXES_FULL]},
                    {'n': 5, 'families': QUICK_N5_FAMILIES, 'storage': ['csr'], 'axes': [SC_AXES_FULL]}],
             'patterns_in_partition_modules': False}
     return {
         'inverse_sizes': [1, 2, 3, 4, 5],
-        'linsolve_family_storage': STORAGES,
+        'linsolve_family_storage': {str(n): STORAGES for n in SIZES_LS}, 'linsolve_family_axes': LS_AXES_FULL,
         'linsolve_pattern_storage': STORAGES, 'linsolve_pattern_rhs_dtype': 'real and complex',
+        'linsolve_pattern_axes': LS_AXES_FULL,
         'soe': [{'n': n, 'families': 'all', 'storage': ['csc', 'csr'], 'axes': [SOE_AXES_FULL]} for n in SIZES_PART],
         'sc': [{'n': n, 'families': 'all', 'storage': ['csc', 'csr'], 'axes': [SC_AXES_FULL]} for n in SIZES_PART],
         'patterns_in_partition_modules': {'storage': ['csc'], 'soe_axes': SOE_AXES_PATTERNS, 'sc_axes': SC_AXES_FULL}}
@@ -827,9 +837,8 @@ def plan(tier):
 def bounds(tier, seed):
     b = {'value_table': seed % lm.NTABLES, 'cond_max': COND_MAX, 'families': lm.FAMILIES,
          'pattern_matrices_n3': len(lm.pattern_names()), 'linsolve_sizes': SIZES_LS,
-         'linsolve_axes': {'rhs_shape': ['(n)', '(n,1)', '(n,3)'], 'rhs_dtype': ['real', 'complex'],
-                           'solver': 'auto + every explicit solver documented for the class',
-                           'use_lda_solver': [True, False], 'flags': ['none', 'given']},
+         'linsolve_solver_axis': 'auto + every explicit solver documented for the class and storage',
+         'rhs_shapes': {'vec': '(n)', 'col': '(n,1)', 'blk': '(n,3)'},
          'steps_per_point': ['response', 'repeated response', 'response after a new rhs (LinSolve only)'],
          'partitions': {'soe': 'all 2^n-2 free/prescribed splits', 'sc': 'all 3^n-2^(n+1)+1 (main,free,rest) '
                                                                          'assignments'}}
@@ -852,9 +861,10 @@ def generate(tier, seed):
     yield {'__level__': 'linsolve/families'}
     for n in SIZES_LS:
         for fam in family_names(n):
-            for storage in pl['linsolve_family_storage']:
+            for storage in pl['linsolve_family_storage'][str(n)]:
                 for rdt in 'rc':
-                    yield {'mod': 'linsolve', 'mat': fam, 'n': n, 'table': t, 'storage': storage, 'rdt': rdt}
+                    yield {'mod': 'linsolve', 'mat': fam, 'n': n, 'table': t, 'storage': storage, 'rdt': rdt,
+                           'axes': pl['linsolve_family_axes']}
 
     yield {'__level__': 'linsolve/patterns-n3'}
     for nm in pats:
@@ -862,7 +872,8 @@ def generate(tier, seed):
             for rdt in 'rc':
                 if tier == 'quick' and (rdt == 'c') != is_complex_name(nm):
                     continue
-                yield {'mod': 'linsolve', 'mat': nm, 'n': 3, 'table': t, 'storage': storage, 'rdt': rdt}
+                yield {'mod': 'linsolve', 'mat': nm, 'n': 3, 'table': t, 'storage': storage, 'rdt': rdt,
+                       'axes': pl['linsolve_pattern_axes']}
 
     def soe_cases(mats, n, storages, axes_list):
         for mat in mats:
